@@ -22,12 +22,19 @@ def pick(rng, w):
 # ---------------------------------------------------------------- generators
 def gen_dary(rng, nops):
     d = 1 + rng.below(8); rv = rng.below(2)
+    r = rng.below(100)
+    if r < 8: rv = 2; d = 2                 # default template arguments: Arity 2, std::less (priority = key), alias d_ary_heap
+    elif r < 18: rv = 3; d = 2 + rng.below(2)   # heap-owning key type (moved-from elements become visible)
     nk = rng.choice([3, 6, 12, 40]); pmax = rng.choice([2, 5, 12, 40])
     mode = rng.below(4)      # 0 mixed, 1 fill then drain, 2 build/update_all heavy, 3 push/pop alternating near empty
     ops = []; size = 0; dirty = False
-    def kp(): return rng.below(nk), rng.below(pmax)
+    def kp():
+        k = rng.below(nk)
+        return (k, k) if rv == 2 else (k, rng.below(pmax))
     while len(ops) < nops:
-        if dirty:
+        if rv == 2:          # the order is the key itself: there is no priority to change
+            name = pick(rng, [("P", 50), ("O", 38), ("B", 8), ("C", 2), ("UA", 2)])
+        elif dirty:
             name = pick(rng, [("S", 40), ("UA", 45), ("B", 8), ("C", 7)])
         elif mode == 1:
             name = pick(rng, [("P", 70 if len(ops) < nops // 2 else 10), ("O", 10 if len(ops) < nops // 2 else 70), ("S", 3), ("B", 2)])
@@ -57,12 +64,16 @@ def gen_addr(rng, nops):
     the property); harness and driver apply P / R / O only when the precondition holds on their own exact state."""
     d = 1 + rng.below(8); rv = rng.below(2)
     kt = rng.choice([8, 16, 32, 32])
+    r = rng.below(100)
+    if r < 8: rv = 2; d = 2; kt = 32        # default template arguments (std::less: priority = key), alias d_ary_addressable_int_heap
+    elif r < 16: kt = 64; d = rng.choice([2, 4])
     nk = rng.choice([4, 8, 16, 40]); pmax = rng.choice([2, 5, 12, 40])
     hi = None
     if kt == 8 and rng.chance(1, 4): nk = 255; hi = 254          # largest legal uint8_t key
     mode = rng.below(4)      # 0 mixed, 1 update heavy (both directions), 2 rebuild heavy, 3 remove heavy
     ops = []; cont = set(); prio = {}; dirty = False
     kr = max(1, min(nk, 40) - 3)        # the contains() bitmap (nk keys) also covers keys beyond the handle table
+    def pr(k): return k if rv == 2 else rng.below(pmax)
     def key():
         if hi is not None and rng.chance(1, 3): return hi - rng.below(3)
         return rng.below(kr)
@@ -81,11 +92,11 @@ def gen_addr(rng, nops):
         if name == "P":
             k = key()
             if k not in cont or rng.chance(1, 10):
-                p = rng.below(pmax); ops.append("%s,%d,%d" % (rng.choice(["P", "PR"]), k, p)); cont.add(k); prio[k] = p
+                p = pr(k); ops.append("%s,%d,%d" % (rng.choice(["P", "PR"]), k, p)); cont.add(k); prio[k] = p
                 if rng.chance(1, 3) and k >= 2:
                     # right after a push that may have grown handles_: update()/remove() of a smaller key (often a
                     # never-inserted key in the gap): update inserts it, remove is skipped by the harness if absent
-                    g = rng.below(k); p2 = rng.below(pmax)
+                    g = rng.below(k); p2 = pr(g)
                     if rng.chance(2, 3): ops.append("U,%d,%d" % (g, p2)); cont.add(g); prio[g] = p2
                     else: ops.append("R,%d" % g); cont.discard(g)
         elif name == "R":
@@ -93,10 +104,12 @@ def gen_addr(rng, nops):
         elif name == "O":
             ops.append(rng.choice(["O", "OX"]))
             if cont:
-                best = (max if rv else min)(prio.get(k, 0) for k in cont)
+                best = (max if rv == 1 else min)(prio.get(k, 0) for k in cont)
                 cont.discard([k for k in sorted(cont) if prio.get(k, 0) == best][0])
-        elif name == "U": k = key(); p = rng.below(pmax); ops.append("U,%d,%d" % (k, p)); cont.add(k); prio[k] = p
-        elif name == "S": k = key(); p = rng.below(pmax); ops.append("S,%d,%d" % (k, p)); prio[k] = p; dirty = True
+        elif name == "U": k = key(); p = pr(k); ops.append("U,%d,%d" % (k, p)); cont.add(k); prio[k] = p
+        elif name == "S":
+            if rv == 2: continue            # std::less on the key: no priority to change
+            k = key(); p = rng.below(pmax); ops.append("S,%d,%d" % (k, p)); prio[k] = p; dirty = True
         elif name == "UA": ops.append("UA"); dirty = False
         elif name == "B":
             n = rng.choice([0, 1, 2, 3, d + 1, d + 2, 2 * d + 1, rng.below(20)])
@@ -105,7 +118,7 @@ def gen_addr(rng, nops):
                 k = key()
                 if k not in ks: ks.append(k)
             l = []
-            for k in ks: prio[k] = rng.below(pmax); l.append("%d:%d" % (k, prio[k]))
+            for k in ks: prio[k] = pr(k); l.append("%d:%d" % (k, prio[k]))
             ops.append(rng.choice(["B", "Bi", "Bm"]) + "," + ";".join(l)); cont = set(ks); dirty = False
         elif name == "C": ops.append("C"); cont = set(); dirty = False
     if dirty: ops.append("UA")
@@ -113,7 +126,7 @@ def gen_addr(rng, nops):
     return "addr %d %d %d %d %s" % (d, rv, kt, nk, " ".join(ops))
 
 def gen_radix(rng, nops):
-    w = rng.choice([8, 16, 32, 64]); sg = rng.below(2); rb = rng.choice([1, 2, 3, 4, 6])
+    w = rng.choice([8, 16, 32, 64]); sg = rng.below(2); rb = rng.choice([1, 2, 3, 4, 5, 6])
     lo = -(1 << (w - 1)) if sg else 0
     hi = (1 << (w - 1)) - 1 if sg else (1 << w) - 1
     mode = rng.below(5)   # 0 mixed, 1 dense near frontier, 2 extremes, 3 wide random, 4 bulk (swap_top_bucket) with duplicates
@@ -142,6 +155,8 @@ def gen_radix(rng, nops):
         elif name == "W": ops.append("W"); frontier = min(cont); cont = [x for x in cont if x != frontier]
     while cont:
         ops.append("T"); ops.append("O"); cont.remove(min(cont))
+    if (w, sg, rb) in ((32, 0, 3), (16, 1, 2)) and rng.chance(1, 2):
+        ops.insert(0, "X")      # RadixHeap over a non-pair value type with its own KeyExtract, built by make_radix_heap
     return "radix %d %d %d %s" % (w, sg, rb, " ".join(ops))
 
 corpus = [l.strip() for l in open(os.path.join(verif.VERIF, "corpus", "C13", "cases.txt")) if l.strip() and not l.startswith("#")]
@@ -151,29 +166,40 @@ if ck.replay:
     cases = [json.load(open(ck.replay))["case"]]
 else:
     N = 150000 if ck.thorough() else 3600
+    for k in range(20 if ck.thorough() else 3): cases.append("bitarray %d" % rng.below(1 << 30))   # the real filled_ tree vs std::set
     for k in range(N):
         r = k % 3
         if r == 0: cases.append(gen_dary(rng, 8 + rng.below(60)))
         elif r == 1: cases.append(gen_addr(rng, 8 + rng.below(60)))
         else: cases.append(gen_radix(rng, 8 + rng.below(70)))
-heap_cases = [c for c in cases if not c.startswith("radix")]
-radix_cases = [c for c in cases if c.startswith("radix")]
-hfile = os.path.join(ck.scratch, "heap_cases.txt"); open(hfile, "w").write("\n".join(heap_cases) + "\n")
-rfile = os.path.join(ck.scratch, "radix_cases.txt"); open(rfile, "w").write("\n".join(radix_cases) + "\n")
+def part_of(c):
+    t = c.split()
+    if t[0] == "dary": return "heap1"
+    if t[0] == "addr": return "heap1" if (t[3] == "8" and t[2] != "2") else "heap2"
+    if t[0] == "bitarray": return "radix1"
+    return "radix1" if t[1] in ("8", "16") else "radix2"
+groups = {"heap1": [], "heap2": [], "radix1": [], "radix2": []}
+for c in cases: groups[part_of(c)].append(c)
+files = {}
+for g, l in groups.items():
+    files[g] = os.path.join(ck.scratch, g + "_cases.txt"); open(files[g], "w").write("\n".join(l) + "\n")
 
-# ---------------------------------------------------------------- build (two translation units in parallel) and run
+# ---------------------------------------------------------------- build (four translation units in parallel) and run
 FLAGS = [f if f != "-g" else "-g1" for f in verif.CXXFLAGS_SAN]
-with ThreadPoolExecutor(max_workers=2) as ex:
-    f1 = ex.submit(ck.build_cpp, "c13_heap", ["harness/C13/heap_harness.cpp"], FLAGS)
-    f2 = ex.submit(ck.build_cpp, "c13_radix", ["harness/C13/radix_harness.cpp"], FLAGS, ["tlx/die/core.cpp"])
-    hexe, hlog = f1.result(); rexe, rlog = f2.result()
+SRC = {"heap1": ("harness/C13/heap_harness.cpp", "-DC13_PART=1", []), "heap2": ("harness/C13/heap_harness.cpp", "-DC13_PART=2", []),
+       "radix1": ("harness/C13/radix_harness.cpp", "-DC13_PART=1", ["tlx/die/core.cpp"]),
+       "radix2": ("harness/C13/radix_harness.cpp", "-DC13_PART=2", ["tlx/die/core.cpp"])}
+with ThreadPoolExecutor(max_workers=4) as ex:
+    futs = {g: ex.submit(ck.build_cpp, "c13_" + g, [SRC[g][0]], FLAGS, SRC[g][2], [SRC[g][1]]) for g in SRC}
+    built = {g: f.result() for g, f in futs.items()}
 drv, dlog = ck.ocaml_driver("C13")
 
-stats = {"dary": 0, "addr": 0, "radix": 0}
+stats = {"dary": 0, "addr": 0, "radix": 0, "bitarray": 0}
 distinct = set(); samples = []; found = False
 
 def nontrivial(case, impl_line):
     t = case.split()
+    if t[0] == "bitarray": return True
     if t[0] == "radix":
         radix = 1 << int(t[3]); big = False
         for tok in impl_line.split():
@@ -233,8 +259,8 @@ def run_group(name, exe, log, cfile, group):
 if drv is None:
     ck.violation("extracted model/driver does not build", {"correspondence": "ocaml/C13_driver.ml", "log": dlog[-2000:]}, no_input=True)
 else:
-    run_group("heap_harness.cpp", hexe, hlog, hfile, heap_cases)
-    run_group("radix_harness.cpp", rexe, rlog, rfile, radix_cases)
+    for g in ("heap1", "heap2", "radix1", "radix2"):
+        run_group(SRC[g][0].split("/")[-1] + " " + SRC[g][1], built[g][0], built[g][1], files[g], groups[g])
 
 if pr is not None and not pr["ok"]:
     ck.proof_broken(found)
@@ -244,7 +270,7 @@ ck.finish({
     "distinct_nontrivial": len(distinct),
     "rule": "histories from spec-tracking generators. dary: arity 1..8, min/max order over an external priority table, "
             "push/pop/extract_top/priority change+update_all/build_heap (3 overloads)/clear, final drain. addr: same plus "
-            "remove/update/contains over uint8/16/32 keys incl. key 254 for uint8. radix: {u,i}{8,16,32,64} x radix {2,4,8,16,64}, "
+            "remove/update/contains over uint8/16/32 keys incl. key 254 for uint8. radix: {u,i}{8,16,32,64} x radix {2,4,8,16,32,64}, "
             "monotone push/emplace/top/pop/swap_top_bucket/peak_top_key/clear with extremes, final drain. "
             "non-trivial = (heaps) an extraction/removal/update/rebuild executed with >= 3 stored elements; (radix) an element "
             "was placed in a bucket >= Radix and later extracted (forces reorganize_ to redistribute); distinct = distinct case text. "
